@@ -25,13 +25,14 @@ func (t *tree) size() int { return len(t.leaves) }
 
 // logSpec is one log the witness is configured for (or, for the stranger, is not).
 type logSpec struct {
-	idx   int
-	name  string
-	key   *oracle.Key
-	pub   crypto.PublicKey
-	id    [32]byte
-	idB64 string
-	trees []*tree
+	idx    int
+	name   string
+	key    *oracle.Key
+	pub    crypto.PublicKey
+	id     [32]byte
+	idB64  string
+	trees  []*tree
+	mirror *logSpec // a log with the same leaves and timestamps, hence the same (size, timestamp, root) at every size, under its own key
 }
 
 func newLog(idx int, name string, key *oracle.Key) *logSpec {
@@ -223,7 +224,14 @@ type signedHead struct {
 
 // sign returns the log-signed head for (key, ts, size, root); each distinct head is signed once per run.
 func (w *World) sign(k *oracle.Key, ts, size uint64, root []byte) *signedHead {
-	ck := fmt.Sprintf("%s|%d|%d|%x", k.Name, ts, size, root)
+	return w.signIssue(k, ts, size, root, 0)
+}
+
+// signIssue: issue > 0 is the same tree head signed again by the log (a
+// re-issued STH): with ECDSA the signature value differs, with RSA PKCS#1 v1.5
+// it is the same bytes.
+func (w *World) signIssue(k *oracle.Key, ts, size uint64, root []byte, issue int) *signedHead {
+	ck := fmt.Sprintf("%s|%d|%d|%x|%d", k.Name, ts, size, root, issue)
 	if sh, ok := w.signed[ck]; ok {
 		return sh
 	}
@@ -254,13 +262,18 @@ func (w *World) mkCand(desc string, raw []byte, l *logSpec, t *tree, size int) *
 }
 
 // honestHead is a correctly signed head of tree t at size n, with log id embedded or not.
+// variant%100 shifts the timestamp; variant/100 > 0 is a re-issued signature
+// over the very same (size, timestamp, root).
 func (w *World) honestHead(l *logSpec, t *tree, n int, variant int, embed bool) *cand {
-	sh := w.sign(l.key, headTS(n, variant), uint64(n), t.roots[n])
+	sh := w.signIssue(l.key, headTS(n, variant%100), uint64(n), t.roots[n], variant/100)
 	var id []byte
 	e := ""
+	if variant >= 100 {
+		e = fmt.Sprintf("(re-issued %d)", variant/100)
+	}
 	if embed {
 		id = l.id[:]
-		e = "+id"
+		e += "+id"
 	}
 	return w.mkCand(fmt.Sprintf("%s/%s@%d%s", l.name, t.name, n, e), sh.json(0, id), l, t, n)
 }
